@@ -27,6 +27,8 @@ from contracts import lemmas as LEMMAS     # noqa: E402
 
 from contracts import tap as TAP           # noqa: E402
 from contracts import dbfiles as DBFILES   # noqa: E402
+from contracts import compositions as COMPOSE   # noqa: E402
+from contracts import depends as DEPENDS   # noqa: E402
 
 DBFUNCS = ["server.Mailbox.open", "server.Mailbox._touch", "server.Mailbox.get_messages", "server.Mailbox._add_message",
            "server.Mailbox.add_message", "server.Mailbox.close", "server.AppNamespace._get_nameplate_ids",
@@ -75,6 +77,19 @@ PROPS = {
             "functions_all": ["server.AppNamespace.get_nameplate_ids", "server_websocket.WebSocketServer.handle_list"],
             "assumptions": A_PY + A_SQL + A_FW,
             "paper_steps": ["C18.config_independent: every contract is proved for symbolic allow_list / usage_db / blur_usage / log_requests, and no postcondition about the channel tables, the outboxes or connection state mentions them (except handle_list's answer): equal runs (DESIGN 9)"]},
+    "C11": {"census": [DEPENDS.registry_free, CENSUS.heap_fields], "canaries": [DEPENDS.canary],
+            "functions_all": ["server_websocket.WebSocketServer." + h for h in DEPENDS.EVENTS] + [
+                "server_websocket.WebSocketServer.onClose", "server.Server.get_app", "server.AppNamespace.open_mailbox"],
+            "assumptions": A_PY + A_SQL + A_FW, "conditioned_on": ["F1"],
+            "paper_steps": ["C11.simulation: the relation 'same database, same connections, same Sub, both heaps satisfy the heap invariants' is preserved by every event because every client-visible conjunct of every handler postcondition is free of registry contents (census.depends.*), the contracts are exact (a post-state is determined up to the choice of fresh rowids / object references), and related states give equal frames",
+                            "restart = heap reset to empty with all connections dead: every heap invariant is quantified over alive connections / registered objects and holds vacuously",
+                            "the sweep's database effect depends on the registries only through 'has listeners', which is Sub non-empty (GH4, GH5); its registry effect (dropping idle namespaces) is the open finding F1"]},
+    "C14": {"lemmas": [COMPOSE.c14], "canaries": [COMPOSE.canaries],
+            "assumptions": A_PY + A_SQL + ["A15", "the duplicate arrives at the same virtual instant (same `when`)"],
+            "conditioned_on": ["F2", "F8", "F11"],
+            "not_covered": ["GH4/GH5 at the second close are taken from the event level (handle_close re-establishes them, C02)"],
+            "paper_steps": ["the compositions are over the contracts of claim_nameplate, release_nameplate, open_mailbox and Mailbox.close, which the real code is verified against (Tier A); a fresh connection's handler adds only the once-only flags, which are per connection",
+                            "answers to later commands do not differ: every handler's postcondition is a function of the database, the acting connection and Sub (paper step shared with C11)"]},
     "C19": {"lemmas": [DBFILES.c19],
             "assumptions": ["A13 os.path.exists / tempfile.mkstemp / os.rename (atomic replace within a directory) / shutil.copy behave as documented; a crash is process death between two such calls",
                             "A6/A7 sqlite3: legacy transaction control, executescript commits first and autocommits each statement unless the script says BEGIN; an empty file is an empty database; a non-database file raises DatabaseError at the first statement that reads it",
@@ -136,3 +151,38 @@ def try_counterexample(pid, name, obls):
         return cex.search(pid, name, obls)
     except Exception as e:     # a crash in the search never turns into a verdict
         return None
+
+
+def thorough_extras(pid):
+    """thorough tier: seeded-mutant self-test for this property, validation of the string axioms against
+    CPython, native run of every recorded finding history"""
+    out = {"mutants": {}, "assumption_checks": [], "findings_native": {}}
+    import sys
+    sys.path.insert(0, os.path.join(HERE, "tools"))
+    try:
+        import run_mutants
+        from mutants.catalog import MUTANTS
+        ids = [m["id"] for m in MUTANTS if pid in m.get("props", [])]
+        if ids:
+            for mid, status, detail in run_mutants.run(ids, jobs=4):
+                out["mutants"][mid] = status
+    except Exception as e:      # the self-test never turns into a verdict about /repo
+        out["mutants"]["(self-test failed to run)"] = "ERROR %s" % e
+    # A4: dec is injective, has no leading zero, digit counts as axiomatised
+    bad = []
+    seen = {}
+    for i in range(-10, 10 ** 6 + 1):
+        s_ = "%d" % i
+        if s_ in seen or s_ == "":
+            bad.append(i)
+        seen[s_] = i
+        if i >= 1:
+            nd = len(s_)
+            if s_[0] == "0" or not ((1 <= i <= 9) == (nd == 1) and (10 <= i <= 99) == (nd == 2) and (100 <= i <= 999) == (nd == 3)
+                                    and ((1000 <= i <= 999999) == (4 <= nd <= 6))) or int(s_) != i:
+                bad.append(i)
+    out["assumption_checks"].append(("assumption.A4.dec_axioms_hold_in_cpython[-10..10^6]", not bad, str(bad[:5])))
+    for f in load_findings():
+        if pid in f["properties"]:
+            out["findings_native"][f["id"]] = ("present" if finding_present(f) else "absent") + " (status %s)" % f["status"]
+    return out
